@@ -395,33 +395,6 @@ theorem sharedImpl_safe (sec : Bytes) : sharedImpl.Safe (Win sec) where
     simp only [sharedImpl, Core.withDefaults, sharedCore, Shared.empty_eq]
     exact ⟨hs.1, by have := hs.2; simp only; omega⟩
 
-/-- attached windows of `sec`: what `EndianSlice` methods other than `empty` preserve -/
-def WinA (sec : Bytes) (c : Cur) : Prop := Win sec c ∧ c.det = false
-
-theorem sliceCore_safeA (sec : Bytes) : sliceCore.SafeNE (WinA sec) where
-  truncate := by
-    intro n s hs
-    refine ⟨(sliceCore_safe sec).truncate n s hs.1, ?_⟩
-    simp only [sliceCore, Slice.truncate]; split <;> exact hs.2
-  skip := by
-    intro n s hs
-    refine ⟨(sliceCore_safe sec).skip n s hs.1, ?_⟩
-    simp only [sliceCore, Slice.skip]; split <;> exact hs.2
-  split := by
-    intro n s hs
-    have h := (sliceCore_safe sec).split n s hs.1
-    refine ⟨⟨h.1, ?_⟩, fun r hr => ⟨h.2 r hr, ?_⟩⟩
-    · simp only [sliceCore, Slice.split, Slice.readSliceRaw]; split <;> exact hs.2
-    · simp only [sliceCore, Slice.split, Slice.readSliceRaw] at hr
-      split at hr
-      · cases hr
-      · cases hr; exact hs.2
-  readSlice := by
-    intro n s hs
-    refine ⟨(sliceCore_safe sec).readSlice n s hs.1, ?_⟩
-    simp only [sliceCore, Slice.readSlice, Slice.readSliceRaw, M.bind, M.pure]
-    by_cases h : s.len < n <;> simp [h, hs.2]
-
 /-! ## `RelocateReader` is as safe as the reader it wraps -/
 
 /-- the `reader` field satisfies `P`, the `section` field (which no method assigns) `Q` -/
